@@ -372,6 +372,7 @@ def run(chk):
     import c09_validation
 
     c09_validation.stage(chk)
+    c09_validation.answers_stage(chk)
     scheme_stage(chk)
     pykka_stage(chk)
     if chk.tier == "thorough":
